@@ -31,10 +31,11 @@ class Unsupported(Exception):
 
 
 class PyRaise(Exception):
-    def __init__(self, name, text=""):
+    def __init__(self, name, text="", value=None):
         super().__init__(name)
         self.name = name
         self.text = text
+        self.value = value   # the abstract exception object, when the failure was modelled by one
 
 
 class _Return(Exception):
@@ -248,6 +249,13 @@ class Interp:
             return FuncV(m.funcs[name].node, self.genv, name)
         if name in ("None", "True", "False"):
             return {"None": None, "True": True, "False": False}[name]
+        if name in m.assigns and isinstance(m.assigns[name], (ast.Dict, ast.Tuple, ast.List, ast.Constant)):
+            # a module-level table of constants / names: evaluated once, in the module's own scope
+            ok, cached = self.genv.get("__const__" + name)
+            if not ok:
+                cached = self.eval(m.assigns[name], self.genv)
+                self.genv.vars["__const__" + name] = cached
+            return cached
         dotted = self.repo.resolve_name(m, name)
         return Sym(dotted or name)
 
@@ -460,6 +468,8 @@ class Interp:
             if isinstance(obj, (Sym, App)):
                 names = {c.text.rsplit(".", 1)[-1] for c in classes if isinstance(c, Sym)}
                 return False  # an opaque symbol is an instance of none of the classes a builder asks about (not a failure, not a partial, not a container)
+            if isinstance(obj, (FuncV, LambdaV, BoundV)):
+                return False  # a plain function: none of the classes a builder asks about (not a partial, not a container)
             if isinstance(obj, PartialV):
                 return any(isinstance(c, Sym) and c.text.rsplit(".", 1)[-1] == "partial" for c in classes)
             if obj is None or isinstance(obj, (bool, int, str, list, tuple, dict)):
@@ -515,6 +525,8 @@ class Interp:
             a, b = self.eval(e.left, env), self.eval(e.right, env)
             if isinstance(a, int) and isinstance(b, int) and not isinstance(a, bool) and not isinstance(b, bool):
                 return a + b if isinstance(e.op, ast.Add) else a - b
+            if isinstance(e.op, ast.Add) and isinstance(a, str) and isinstance(b, str):
+                return a + b
             if isinstance(e.op, ast.Add) and isinstance(a, list) and isinstance(b, list):
                 return a + b
             if isinstance(e.op, ast.Add) and isinstance(a, tuple) and isinstance(b, tuple):
@@ -634,6 +646,16 @@ class Interp:
                 m = e.func.attr
                 if isinstance(recv, (list, dict)):
                     return self.method(recv, m, args, kwargs, e)
+                if isinstance(recv, str):
+                    if m == "format" and all(isinstance(a, str) for a in args) and all(isinstance(a, str) for a in kwargs.values()):
+                        return recv.format(*args, **kwargs)
+                    if m == "join" and len(args) == 1 and all(isinstance(a, str) for a in args[0]):
+                        return recv.join(list(args[0]))
+                    if m in ("strip", "lstrip", "rstrip", "lower", "upper") and not args:
+                        return getattr(recv, m)()
+                    if m in ("startswith", "endswith") and len(args) == 1 and isinstance(args[0], str):
+                        return getattr(recv, m)(args[0])
+                    raise Unsupported(f"str.{m}")
                 return self.call(self.attr(recv, m, e), args, kwargs, e)
             return self.call(self.eval(e.func, env), args, kwargs, e)
         if isinstance(e, ast.Yield):
@@ -643,13 +665,31 @@ class Interp:
             ys.append(self.eval(e.value, env) if e.value is not None else None)
             return None
         if isinstance(e, ast.Await):
-            return self.eval(e.value, env)   # scheduling is not modelled: awaiting yields the awaited term
+            v = self.eval(e.value, env)   # scheduling is not modelled: awaiting yields the awaited term ...
+            if isinstance(v, RecV) and "_raises" in v.attrs:
+                exc = v.attrs["_raises"]   # ... or raises, for an awaitable modelled as failing
+                raise PyRaise(exc.cls if isinstance(exc, RecV) else "Exception", "awaited failure", value=exc)
+            return v
         if isinstance(e, ast.NamedExpr):
             v = self.eval(e.value, env)
             self.assign(e.target, v, env)
             return v
         if isinstance(e, ast.JoinedStr):
-            return Sym(unparse(e))
+            parts = []
+            for v in e.values:
+                if isinstance(v, ast.Constant):
+                    parts.append(str(v.value))
+                elif isinstance(v, ast.FormattedValue) and v.format_spec is None and v.conversion == -1:
+                    try:
+                        x = self.eval(v.value, env)
+                    except (Unsupported, PyRaise):
+                        return Sym(unparse(e))
+                    if not isinstance(x, str):
+                        return Sym(unparse(e))
+                    parts.append(x)
+                else:
+                    return Sym(unparse(e))
+            return "".join(parts)
         raise Unsupported(f"{type(e).__name__} at line {getattr(e, 'lineno', '?')}")
 
     # ------------------------------------------------------------------ statements
@@ -658,6 +698,8 @@ class Interp:
             # assignment goes to the scope that holds the name only for nonlocal; plain Python semantics: local
             env.vars[target.id] = value
         elif isinstance(target, (ast.Tuple, ast.List)):
+            if not isinstance(value, (list, tuple)):
+                raise PyRaise("TypeError", f"cannot unpack {value!r}")
             vals = list(value)
             if len(vals) != len(target.elts):
                 raise PyRaise("ValueError", "unpack")
@@ -757,10 +799,11 @@ class Interp:
                             names = [unparse(x) for x in h.type.elts]
                         else:
                             names = [unparse(h.type)]
-                        if "*" in names or ex.name in names or "Exception" in names or "BaseException" in names or \
+                        exb = set(ex.value.bases) if isinstance(ex.value, RecV) else set()
+                        if "*" in names or ex.name in names or (exb & set(names)) or ("Exception" in names and (not isinstance(ex.value, RecV) or "Exception" in exb)) or "BaseException" in names or \
                                 (ex.name in ("KeyError", "IndexError") and "LookupError" in names):
                             if h.name:
-                                env.vars[h.name] = Sym(f"<{ex.name}>")
+                                env.vars[h.name] = ex.value if ex.value is not None else Sym(f"<{ex.name}>")
                             self.block(h.body, env)
                             break
                     else:
@@ -769,6 +812,12 @@ class Interp:
                     self.block(s.orelse, env)
             finally:
                 self.block(s.finalbody, env)
+        elif isinstance(s, (ast.With, ast.AsyncWith)):
+            for item in s.items:
+                v = self.eval(item.context_expr, env)   # the manager stands for what it yields (files: the file)
+                if item.optional_vars is not None:
+                    self.assign(item.optional_vars, v, env)
+            self.block(s.body, env)
         elif isinstance(s, (ast.FunctionDef, ast.AsyncFunctionDef)):
             env.vars[s.name] = FuncV(s, env, s.name)
         elif isinstance(s, ast.Pass):
